@@ -1,6 +1,6 @@
 (* C32 — Failed runs are retried at most once. *)
 From Coq Require Import List NArith Bool Arith.
-From RV Require Import C32.Model C32.Proofs C32.Spec.
+From RV Require Import C32.Model C32.Proofs C32.Spec C32.SpecProofs.
 Import ListNotations.
 
 (* vrps: for EVERY outcome stream and every behaviour of sanitize, at most two runs *)
@@ -34,6 +34,12 @@ Theorem C32_old_vrps_refuted : forall fuel n once,
   vrps false (fun _ => true) (fun _ => Retry) fuel n once = OutOfFuel.
 Proof. exact vrps_old_loops_forever. Qed.
 
+(* the executable oracle accepts what the model reports, for every command and outcome stream, and the
+   case checker returns 0 on it *)
+Theorem C32_model_satisfies_spec : forall c, model_exit c <> OutOfFuel ->
+  spec_okb (model_case c) = true /\ check_case (model_case c) = 0%N.
+Proof. exact model_satisfies_spec. Qed.
+
 Example C32_nonvacuous :
   vrps true (fun _ => true) (stream_of [Retry; Ok]) 50 0 false = ExitOk 2 /\
   vrps true (fun _ => true) (stream_of [Retry]) 50 0 false = ExitErr 2 /\
@@ -42,3 +48,5 @@ Proof. repeat split. Qed.
 
 Check C32_vrps_terminates : forall sz st fuel, 2 <= fuel ->
   exists r, r <= 2 /\ (vrps true sz st fuel 0 false = ExitOk r \/ vrps true sz st fuel 0 false = ExitErr r).
+Check C32_model_satisfies_spec : forall c, model_exit c <> OutOfFuel ->
+  spec_okb (model_case c) = true /\ check_case (model_case c) = 0%N.
